@@ -20,7 +20,8 @@ RULE = ('one selected strategy per run x all 28 registered strategies x paired/s
         'strategy and vice versa) x rejects handle on/off x joint / one-file-per-cell output (maxHandles 2..5, prune interval forced small) '
         'x maxReadPairs in {None,1,N-1,N,N+5} x hamming 0/1; libraries of 40-300 pairs mixing whitelisted, 1/2-mismatch, unknown, truncated and '
         'empty reads, N bases, all phred characters 33..126, headers Illumina (known / unknown / numeric index), 7-field, already demultiplexed '
-        'and 3-DEC. Non-trivial = run with >=1 accepted and >=1 rejected pair; distinct = distinct (strategy, configuration, library seed).')
+        'and 3-DEC. Non-trivial = run with >=1 accepted and >=1 rejected pair; distinct = distinct (strategy, configuration, library seed).'
+        ' Command-line cases: 1-3 lanes in 1-3 chunk files of unequal size handed over sorted / shuffled / with a duplicate path / as a file list; strategies selected by -use A, -use A,B or autodetection; per-lane jobs (-g n) followed by the glue step.')
 ASSUMPTIONS = ['input FASTQ is well formed (4 lines per record, equal seq/qual length, same number of records in both mate files)',
                'library names are short and header-safe (a header over 255 characters is C04\'s loud refusal)',
                'per-cell output is only combined with barcode strategies (the bulk strategy writes plain strings without a cell)']
